@@ -15,7 +15,7 @@ struct Case {
 }
 
 fn weights() -> OpWeights {
-	OpWeights { send: 30, claim: 10, fail: 5, deliver: 40, flush: 4, events: 12, forwards: 10, disconnect: 4, reconnect: 6, setfee: 4, timer: 1, async_toggle: 3, complete: 6, pump: 6, force_close: 0, tamper_revoke: 0 }
+	OpWeights { send: 30, claim: 10, fail: 5, deliver: 40, flush: 4, events: 12, forwards: 10, disconnect: 4, reconnect: 6, setfee: 4, timer: 1, async_toggle: 3, complete: 6, pump: 6, force_close: 0, tamper_revoke: 0, ..OpWeights::zero() }
 }
 
 fn strat(max_ops: usize) -> impl Strategy<Value = Case> {
@@ -83,7 +83,7 @@ struct LimitCase {
 }
 
 fn limit_weights() -> OpWeights {
-	OpWeights { send: 40, claim: 6, fail: 4, deliver: 25, flush: 6, events: 10, forwards: 10, disconnect: 0, reconnect: 0, setfee: 5, timer: 0, async_toggle: 0, complete: 0, pump: 10, force_close: 0, tamper_revoke: 0 }
+	OpWeights { send: 40, claim: 6, fail: 4, deliver: 25, flush: 6, events: 10, forwards: 10, disconnect: 0, reconnect: 0, setfee: 5, timer: 0, async_toggle: 0, complete: 0, pump: 10, force_close: 0, tamper_revoke: 0, ..OpWeights::zero() }
 }
 
 fn limit_strat() -> impl Strategy<Value = LimitCase> {
